@@ -136,7 +136,7 @@ def measure(ctx, evs):
 def negative_samples(ctx, evs):
     """Corrupt real accepted runs in four ways; every corrupted copy must be rejected."""
     bad = []
-    want = {"del-before-recv", "final-flipped", "ack-without-row", "del-after-wrongsize"}
+    want = {"del-before-recv", "final-flipped", "ack-without-row", "del-after-wrongsize", "set-before-up"}
     for seg in segments(evs):
         if not want:
             break
@@ -172,6 +172,17 @@ def negative_samples(ctx, evs):
                 s[0] = dict(s[0], neg="ack-without-row")
                 bad.append(s)
                 want.discard("ack-without-row")
+                continue
+        if "set-before-up" in want:
+            s = [dict(e) for e in seg]
+            k = next((i for i, e in enumerate(s) if e["ev"] == "set"), None)
+            u = next((i for i, e in enumerate(s) if e["ev"] == "up" and k is not None and e["b"] == s[k]["b"]), None)
+            if k is not None and u is not None and u < k:
+                x = s.pop(k)
+                s.insert(u, x)
+                s[0] = dict(s[0], neg="set-before-up")
+                bad.append(s)
+                want.discard("set-before-up")
                 continue
         if "del-after-wrongsize" in want:
             s = [dict(e) for e in seg]
@@ -257,9 +268,9 @@ def run(ctx, replay):
     big = ctx.tlc_gen("SyncGen", "SyncGen.cfg", tag="SCN", overrides={
         "MaxLen": 3, "MaxRestarts": 1, "MaxFaults": 2, "Pools": "{1, 5}", "Pars": "{FALSE, TRUE}"})
     rng = random.Random(ctx.seed)
-    sample = rng.sample(big, 250 if quick else 1500)
+    sample = rng.sample(big, 160 if quick else 1500)
     fams = [("core", core, "both"), ("cuts", cuts, "mem"), ("sample", sample, "mem"),
-            ("sample-ix", rng.sample(big, 80 if quick else 400), "index")]
+            ("sample-ix", rng.sample(big, 50 if quick else 400), "index")]
     if not quick:
         wide = ctx.tlc_gen("SyncGen", "SyncGen.cfg", tag="SCN", overrides={
             "MaxLen": 3, "MaxRestarts": 2, "MaxFaults": 1, "CrashKinds": '{"sweep", "quiet"}'})
@@ -327,12 +338,15 @@ def run(ctx, replay):
     ctx.assumptions += [
         "gate stores / KVs are correct lower layers; a crash freezes every gate of the incarnation at one lower-layer call (a prefix of "
         "lower-layer calls is durable) and the restarted handler sees the same queue, source and destination backing",
-        "the queue KV itself never fails transiently (the property quantifies over destination/source failures and crashes); "
-        "'wrongsize' = the destination stores the bytes and reports size+1; 'after' = it stores them and reports an error",
+        "the queue KV itself never fails transiently (the property quantifies over destination/source failures and crashes); destination "
+        "failures are failures of the destination as a blob receiver, injected by the recording wrapper around the gate store / the index: "
+        "'error' = nothing stored, 'wrongsize' = stored and size+1 reported, 'after' = stored and an error reported",
         "the copy loop is woken by enqueueing an unseen blob (the only wake-up the handler offers besides its 5 s timer); 'eventually' is "
-        "observed at a bounded horizon: 3 s after the last fault, with wake-ups, on an otherwise idle handler",
-        "index configuration: the destination is a real index.Index behind a recording wrapper, so the handler's toIndex flag (used for "
-        "discovery only) is false; delivered = its have-row says '<size>|indexed' after the out-of-order indexing drained",
+        "observed at a bounded horizon: 3 s of effective waiting after the heal mark and at least 6 consecutive wake-ups the copier did not "
+        "answer (a poll of a CPU-starved driver counts for at most 1 ms)",
+        "index configuration: the destination is a real index.Index behind the recording wrapper, so the handler's toIndex flag (used for "
+        "discovery only) is false; delivered = its have-row says '<size>|indexed' after the out-of-order indexing drained; the rest of the "
+        "four-blob world (key, permanode, two claims) is uploaded in the last incarnation so that every dependency can be resolved",
         "a row written after its blob was already delivered (the copier may overtake queue.Set) stays until the next restart: Sync.tla "
-        "models this and the property does not forbid it",
+        "models this and the property does not forbid it; fullSyncOnStart / validateOnStart / hourlyCompare are not exercised",
     ]
